@@ -585,7 +585,10 @@ def gen_net(rng, tricky=False):
     modes = {}
     for (a, b) in sorted(edges):
         m = rng.choice(['auto', 'auto', 'C', 'C', 'L', 'CL', 'CL'])
-        for (s, t) in ((a, b), (b, a)):
+        dirs = ((a, b), (b, a))
+        if len(edges) > 1 and rng.random() < 0.12:
+            dirs = (dirs[rng.randint(0, 1)],)          # a line that exists in one direction only
+        for (s, t) in dirs:
             mode = m if rng.random() < 0.8 else rng.choice(['auto', 'C', 'L', 'CL'])
             single = rb[s] is not None and len(rb[s]) == 1
             if not tricky:
@@ -980,19 +983,19 @@ def strip(c):
 def generate(ctx):
     rng = ctx.rng
     cases = []
-    cases += [gen_align(rng) for _ in range(ctx.scale(260, 4000))]
-    cases += [gen_align(rng, big=True) for _ in range(ctx.scale(12, 150))]
+    cases += [gen_align(rng) for _ in range(ctx.scale(240, 3000))]
+    cases += [gen_align(rng, big=True) for _ in range(ctx.scale(10, 120))]
     cases += [gen_align(rng, malformed=True) for _ in range(ctx.scale(50, 600))]
-    for stream, nq, nt in (('grid', 200, 3000), ('amps', 120, 1500), ('offgrid', 80, 1000), ('touching', 6, 60),
+    for stream, nq, nt in (('grid', 180, 2500), ('amps', 110, 1300), ('offgrid', 70, 800), ('touching', 6, 60),
                            ('malformed', 50, 600)):
         cases += [gen_cob(rng, stream) for _ in range(ctx.scale(nq, nt))]
     cases += [gen_unit(rng) for _ in range(ctx.scale(80, 800))]
-    cases += [gen_net(rng) for _ in range(ctx.scale(150, 2500))]
-    cases += [gen_net(rng, tricky=True) for _ in range(ctx.scale(40, 600))]
-    cases += [gen_raw(rng) for _ in range(ctx.scale(60, 800))]
-    cases += [gen_raw(rng, malformed=True) for _ in range(ctx.scale(60, 800))]
+    cases += [gen_net(rng) for _ in range(ctx.scale(130, 1800))]
+    cases += [gen_net(rng, tricky=True) for _ in range(ctx.scale(35, 400))]
+    cases += [gen_raw(rng) for _ in range(ctx.scale(50, 600))]
+    cases += [gen_raw(rng, malformed=True) for _ in range(ctx.scale(50, 600))]
     # off-grid amplifier library: separate stream, marks reported not judged
-    for _ in range(ctx.scale(15, 200)):
+    for _ in range(ctx.scale(12, 150)):
         c = gen_net(rng)
         c['eq'] = 3
         cases.append(c)
